@@ -49,10 +49,14 @@ var _ storage.Storage = (*c06Store)(nil)
 type c06Mappings struct {
 	m      map[string]*models.PortMapping
 	nextID int
+	slow   time.Duration // creating a mapping takes this long (slow storage)
 }
 
 func (p *c06Mappings) CreatePortMapping(mp *models.PortMapping) (*models.PortMapping, error) {
 	verif_Yield()
+	if p.slow > 0 {
+		time.Sleep(p.slow)
+	}
 	p.nextID++
 	c := *mp
 	c.ID = fmt.Sprintf("pmap_%d", p.nextID)
@@ -211,7 +215,19 @@ func Harness_C06_sequential() {
 		w.st.failAt = w.st.writes + 1 + verif_Choose(3) // one of the next writes fails
 		verif_Cover("C06.seq.fault")
 	}
+	if !expired && verif_Bool() {
+		// creating the mapping is slow: the code's activation window may close while the
+		// activation is under way - then the code has expired before it was used, and no mapping
+		// may come of it
+		w.maps.slow = time.Duration(int64(verif_Byte())+1) * time.Second
+		verif_Assume(w.now+int64(w.maps.slow) != exp)
+		if w.now+int64(w.maps.slow) > exp {
+			expired = true
+			verif_Cover("C06.seq.expired_during_activation")
+		}
+	}
 	m, err := w.svc.ActivateConnectionCode(&ActivateRequest{Code: "abc-def-ghi", ListenClientID: 2001, ListenAddress: "0.0.0.0:9001"})
+	w.maps.slow = 0
 	if expired || revoked {
 		verif_Assert("C06.seq.refused", err != nil && m == nil)
 		verif_Assert("C06.seq.refused_no_mapping", len(w.maps.m) == 0)
